@@ -125,6 +125,7 @@ type fakeWriter struct {
 	midDone bool
 	svc     **hh.Service
 	perm    int
+	retry   int
 }
 
 func (w *fakeWriter) WriteShardBinary(shardID, ownerID uint64, points [][]byte) error {
@@ -150,6 +151,12 @@ func (w *fakeWriter) WriteShardBinary(shardID, ownerID uint64, points [][]byte) 
 			return errors.New("error code 1: write shard 7: partial write: points beyond retention policy dropped=1")
 		}
 		return errors.New("error code 1: write shard 7: field type conflict: input field \"v\" is type float, already exists as type integer")
+	}
+	// retryable: the target cannot be reached, or it answers with a transient error of its own
+	// (coordinator.ShardWriter reports a non-zero reply code as "error code N: <message>")
+	w.retry++
+	if w.retry%2 == 0 {
+		return errors.New("error code 1: write shard 7: engine is closed")
 	}
 	return errors.New("dial tcp 10.0.0.9:8088: connect: connection refused")
 }
